@@ -301,11 +301,13 @@ func (e *handlerStore[T]) onSubEvent(handler T) {
 
 func (e *handlerStore[T]) offSubEvent(handler T) {
 	e.mu.Lock()
-	for i, sub := range e.subs {
-		if sub == handler {
-			e.subs = append(e.subs[:i], e.subs[i+1:]...)
+	subs := e.subs[:0]
+	for _, sub := range e.subs {
+		if sub != handler {
+			subs = append(subs, sub)
 		}
 	}
+	e.subs = subs
 	e.mu.Unlock()
 }
 
@@ -331,25 +333,27 @@ func (e *handlerStore[T]) off(handler ...T) {
 		return
 	}
 
-	remove := func(slice []T, s int) []T {
-		return append(slice[:s], slice[s+1:]...)
-	}
-
-	for i, h := range e.funcs {
-		for _, _h := range handler {
-			if h == _h {
-				e.funcs = remove(e.funcs, i)
+	// Removing while ranging over the same slice skips elements and slices out of range:
+	// keep the handlers which are not to be removed, in place.
+	filter := func(slice []T) []T {
+		kept := slice[:0]
+		for _, h := range slice {
+			remove := false
+			for _, _h := range handler {
+				if h == _h {
+					remove = true
+					break
+				}
+			}
+			if !remove {
+				kept = append(kept, h)
 			}
 		}
+		return kept
 	}
 
-	for i, h := range e.funcsOnce {
-		for _, _h := range handler {
-			if h == _h {
-				e.funcsOnce = remove(e.funcsOnce, i)
-			}
-		}
-	}
+	e.funcs = filter(e.funcs)
+	e.funcsOnce = filter(e.funcsOnce)
 }
 
 func (e *handlerStore[T]) offAll() {
@@ -415,21 +419,28 @@ func (e *eventHandlerStore) off(eventName string, handler ...reflect.Value) {
 		return
 	}
 
-	remove := func(slice []*eventHandler, s int) []*eventHandler {
-		return append(slice[:s], slice[s+1:]...)
+	// Removing while ranging over the same slice skips elements and slices out of range:
+	// keep the handlers which are not to be removed, in place.
+	filter := func(slice []*eventHandler) []*eventHandler {
+		kept := slice[:0]
+		for _, event := range slice {
+			remove := false
+			for _, h := range handler {
+				if event.rv.Pointer() == h.Pointer() {
+					remove = true
+					break
+				}
+			}
+			if !remove {
+				kept = append(kept, event)
+			}
+		}
+		return kept
 	}
 
 	events, ok := e.events[eventName]
 	if ok {
-		for i, event := range events {
-			for _, h := range handler {
-				ep := event.rv.Pointer()
-				hp := h.Pointer()
-				if ep == hp {
-					events = remove(events, i)
-				}
-			}
-		}
+		events = filter(events)
 		if len(events) == 0 {
 			delete(e.events, eventName)
 		} else {
@@ -439,15 +450,7 @@ func (e *eventHandlerStore) off(eventName string, handler ...reflect.Value) {
 
 	eventsOnce, ok := e.eventsOnce[eventName]
 	if ok {
-		for i, event := range eventsOnce {
-			for _, h := range handler {
-				ep := event.rv.Pointer()
-				hp := h.Pointer()
-				if ep == hp {
-					eventsOnce = remove(eventsOnce, i)
-				}
-			}
-		}
+		eventsOnce = filter(eventsOnce)
 		if len(eventsOnce) == 0 {
 			delete(e.eventsOnce, eventName)
 		} else {
